@@ -93,6 +93,9 @@ func (m *DistrStakingMigrate) Execute(ctx sdk.Context, cdc codec.BinaryCodec, fr
 		info.DelegatorAddress = sdk.AccAddress(to.Bytes()).String()
 		stakingStore.Delete(delegateIterator.Key())
 		stakingStore.Set(stakingtypes.GetDelegationKey(to.Bytes(), validatorAddr), stakingtypes.MustMarshalDelegation(cdc, info))
+		// delegations-by-validator index
+		stakingStore.Delete(stakingtypes.GetDelegationsByValKey(validatorAddr, from))
+		stakingStore.Set(stakingtypes.GetDelegationsByValKey(validatorAddr, to.Bytes()), []byte{})
 
 		events = append(events,
 			sdk.NewEvent(
@@ -121,6 +124,10 @@ func (m *DistrStakingMigrate) Execute(ctx sdk.Context, cdc codec.BinaryCodec, fr
 
 		// migrate unbonding queue
 		for _, entry := range ubd.Entries {
+			// unbonding id -> unbonding delegation key index
+			if indexKey := stakingtypes.GetUnbondingIndexKey(entry.UnbondingId); stakingStore.Has(indexKey) {
+				stakingStore.Set(indexKey, stakingtypes.GetUBDKey(to.Bytes(), valAddr))
+			}
 			var ubdFlag bool
 			UBDQueue, err := m.stakingKeeper.GetUBDQueueTimeSlice(ctx, entry.CompletionTime)
 			if err != nil {
@@ -174,6 +181,10 @@ func (m *DistrStakingMigrate) Execute(ctx sdk.Context, cdc codec.BinaryCodec, fr
 
 		// migrate redelegate queue
 		for _, entry := range red.Entries {
+			// unbonding id -> redelegation key index
+			if indexKey := stakingtypes.GetUnbondingIndexKey(entry.UnbondingId); stakingStore.Has(indexKey) {
+				stakingStore.Set(indexKey, stakingtypes.GetREDKey(to.Bytes(), valSrcAddr, valDstAddr))
+			}
 			var redFlag bool
 			redQueue, err := m.stakingKeeper.GetRedelegationQueueTimeSlice(ctx, entry.CompletionTime)
 			if err != nil {
